@@ -194,6 +194,22 @@ pub fn gen_text(rng: &mut Rng, mode: &str) -> Vec<u32> {
             }
             t
         }
+        "deepiso" => {
+            // more isolate initiators open at once than the embedding depth limit, closed almost completely,
+            // then strong text: isolate matching (BD9) has no depth limit
+            let mut t = vec![];
+            for _ in 0..rng.range(0, 2) { let c = *rng.pick(&[WS, ON, EN, L, R]); t.push(pick_char(rng, c)); }
+            let n = rng.range(120, 135);
+            let kinds = [LRI_C, RLI_C, FSI_C];
+            let k = rng.range(1, 3);
+            for i in 0..n { t.push(kinds[(i * k + rng.below(2)) % 3]); if rng.chance(1, 40) { t.push(pick_char(rng, ON)); } }
+            let close = n - rng.below(4);
+            for _ in 0..close.min(n) { t.push(PDI_C); }
+            for _ in 0..rng.range(1, 3) { let c = *rng.pick(&[L, R, AL, EN]); t.push(pick_char(rng, c)); }
+            for _ in 0..rng.range(0, 4) { t.push(PDI_C); }
+            for _ in 0..rng.range(0, 3) { let c = *rng.pick(&[L, R, AL, WS, B]); t.push(pick_char(rng, c)); }
+            t
+        }
         "brk" => {
             let mut t = vec![];
             // around the 63-entry limit of BD16 the exact count matters
@@ -367,10 +383,11 @@ const CARRIERS_B: [u32; 18] = [0xE0, 0x5D0, 0x905, 0x10000, 0x1F600, 0x3042, 0x6
 
 /// A random data source over a small alphabet; returns the spec and the alphabet.
 pub fn gen_ds(rng: &mut Rng) -> (DsSpec, Vec<u32>) {
-    let carriers: Vec<u32> = if rng.chance(1, 2) {
-        CARRIERS_A.iter().chain(CARRIERS_B.iter()).copied().collect()
-    } else {
-        CARRIERS_B.to_vec()
+    // all-ASCII alphabets matter too: a data source may give RTL classes to ASCII characters
+    let carriers: Vec<u32> = match rng.below(4) {
+        0 => CARRIERS_A.to_vec(),
+        1 | 2 => CARRIERS_A.iter().chain(CARRIERS_B.iter()).copied().collect(),
+        _ => CARRIERS_B.to_vec(),
     };
     let n = rng.range(3, carriers.len().min(14));
     let mut entries: Vec<(u32, BidiClass, Option<(u32, bool)>)> = vec![];
@@ -409,8 +426,9 @@ pub fn gen_ds(rng: &mut Rng) -> (DsSpec, Vec<u32>) {
 pub fn gen_ds_text(rng: &mut Rng, alphabet: &[u32]) -> Vec<u32> {
     let n = if rng.chance(1, 3) { rng.range(3, 9) } else { rng.range(1, 24) };
     let fmt = [LRE_C, RLE_C, PDF_C, LRO_C, RLO_C, LRI_C, RLI_C, FSI_C, PDI_C];
+    let fmt_den = if alphabet.iter().all(|&c| c < 0x80) && rng.chance(2, 3) { 1000 } else { 6 };
     (0..n)
-        .map(|_| if rng.chance(1, 6) { *rng.pick(&fmt) } else { *rng.pick(alphabet) })
+        .map(|_| if rng.chance(1, fmt_den) { *rng.pick(&fmt) } else { *rng.pick(alphabet) })
         .collect()
 }
 
@@ -555,8 +573,8 @@ fn line_case(rng: &mut Rng, modes: &[(&'static str, usize)]) -> (String, Input) 
     (mode, inp)
 }
 
-const MODES_ALL: [(&str, usize); 11] =
-    [("short", 6), ("long", 2), ("iso", 3), ("deep", 1), ("brk", 2), ("sep", 2), ("words", 3), ("weak", 3), ("para", 2), ("max", 1), ("n0", 4)];
+const MODES_ALL: [(&str, usize); 12] =
+    [("short", 12), ("long", 4), ("iso", 6), ("deep", 2), ("brk", 4), ("sep", 4), ("words", 6), ("weak", 6), ("para", 4), ("max", 2), ("n0", 8), ("deepiso", 1)];
 
 /// Exhaustive small scope (support for the thorough tier, never presented as proof): the `n`-th class
 /// sequence over `alphabet`, shortest first, crossed with the three base directions; representatives rotate.
@@ -638,7 +656,7 @@ pub fn gen_case(prop: &str, rng: &mut Rng, n: usize, thorough: bool) -> (String,
             if n == 1 {
                 return ("empty".into(), Input::Bidi { enc: Enc::U16, api: Api::B, dir: Dir::L1, text: vec![], ds: None });
             }
-            bidi_case(rng, &[("para", 5), ("iso", 4), ("short", 2), ("words", 1), ("sep", 1)], true)
+            bidi_case(rng, &[("para", 10), ("iso", 8), ("short", 4), ("words", 2), ("sep", 2), ("deepiso", 1), ("deep", 1)], true)
         }
         "C03" | "C06" => line_case(rng, &[("sep", 5), ("short", 3), ("words", 3), ("iso", 2), ("para", 2), ("long", 1)]),
         "C05" => line_case(rng, &[("sep", 3), ("short", 3), ("words", 3), ("iso", 2), ("deep", 1), ("long", 2), ("max", 2)]),
@@ -854,6 +872,21 @@ pub fn gen_case(prop: &str, rng: &mut Rng, n: usize, thorough: bool) -> (String,
                     suf.push(*rng.pick(&[0x61u32, 0x5D0, 0x31]));
                     suffix = suf;
                 }
+                3 => {
+                    if rng.chance(1, 4) {
+                        // content that opens far more than 125 nested isolates and closes them all (balanced)
+                        tag = "iso-swap-deepiso";
+                        let n = rng.range(124, 132);
+                        let mut c = vec![];
+                        for _ in 0..n { c.push(*rng.pick(&[LRI_C, RLI_C])); }
+                        let inner = rng.range(0, 2);
+                        for _ in 0..(n - inner) { c.push(PDI_C); }
+                        c.push(*rng.pick(&[0x5D0u32, 0x61, 0x627]));
+                        for _ in 0..inner { c.push(PDI_C); }
+                        c1 = c;
+                        prefix = (0..rng.range(0, 2)).map(|_| *rng.pick(&[0x20u32, 0x21, 0x31])).collect();
+                    }
+                }
                 _ => {}
             }
             (tag.into(), Input::Meta13 { dir: pick_dir(rng), prefix, init, c1: balance(&c1), c2: balance(&c2), suffix })
@@ -867,7 +900,7 @@ pub fn gen_case(prop: &str, rng: &mut Rng, n: usize, thorough: bool) -> (String,
             _ => ("table".into(), Input::Cls),
         },
         "C16" => {
-            let mode = pick_mode(rng, &[("iso", 5), ("para", 5), ("short", 2), ("words", 1), ("empty", 1)]);
+            let mode = pick_mode(rng, &[("iso", 10), ("para", 10), ("short", 4), ("words", 2), ("empty", 2), ("deepiso", 1)]);
             let enc = if rng.chance(1, 2) { Enc::U8 } else { Enc::U16 };
             if rng.chance(1, 6) {
                 let (spec, alpha) = gen_ds(rng);
